@@ -18,7 +18,7 @@ if grep -q "^FAIL\|^--- FAIL" "$sd/confirm_tests.txt"; then
 else echo "EXISTING-TESTS ok" >> "$out"; fi
 cp "$sd/demo_test.go" "$where"
 if go test -count=1 -run "ZZDemo|Demo" "$pkg" > "$sd/confirm_demo_with.txt" 2>&1; then echo "DEMO-WITH-CHANGE passes (BAD)" >> "$out"; else echo "DEMO-WITH-CHANGE fails (good)" >> "$out"; fi
-rm -f "$where"; git checkout -q -- . 
+rm -f "$where"; git checkout -q -- . ; git clean -fdq
 cp "$sd/demo_test.go" "$where"
 if go test -count=1 -run "ZZDemo|Demo" "$pkg" > "$sd/confirm_demo_without.txt" 2>&1; then echo "DEMO-WITHOUT-CHANGE passes (good)" >> "$out"; else echo "DEMO-WITHOUT-CHANGE fails (BAD)" >> "$out"; fi
 rm -f "$where"; git checkout -q -- . ; git clean -fdq
